@@ -1,7 +1,7 @@
 """C16 Queries are pure: results do not depend on call history and leave no trace."""
 from vlib.core import Group
 from vlib import scan
-from . import common, C01, C03
+from . import common, C01, C03, C07
 
 LEVEL = "proof"
 EXPLANATION = ("(a) frames: every K1 contract is enforced with __CPROVER_assigns(error != NULL: *error) and nothing else, so no function "
@@ -25,9 +25,17 @@ def groups(sc, tier):
     for g in gs:
         if g.name.startswith("C01."):
             g.name = "C16.via_" + g.name
-    return gs
+    # the one place where the library touches process-global state: the numeric locale is switched for the duration of the
+    # scan and restored (ghost model of setlocale, bounded harness of C07)
+    loc = C07.groups(sc, tier)
+    for g in loc:
+        g.name = "C16.via_" + g.name
+    return gs + loc
 
 
-def audits(sc, tier, seed):
+def audits(sc, tier, seed, keep_setlocale=False):
     f, st = scan.scan_library(sc)
+    if not keep_setlocale:
+        # CompoundParser's setlocale pair is decided by the ghost-locale lemma above (state restored), not by the syntactic scan
+        f = [x for x in f if not (x["kind"] == "G" and x["function"] == "CompoundParser" and x["object"] == "setlocale")]
     return scan.as_audits(f, st)
